@@ -79,10 +79,14 @@ type world struct {
 	U        *drv.Dev // never authorized (until a mid-run authorization in a later week)
 	C        *drv.Dev
 	accepted [][]byte
-	rng      *rand.Rand
-	r        *ev.Result
-	logLen   int64
-	step     int
+	// the harness's own record of who is authorized / banned (from the GCA-signed
+	// authorizations it submitted), independent of what the server believes
+	auth   map[uint32]refenc.Auth
+	banned map[uint32]bool
+	rng    *rand.Rand
+	r      *ev.Result
+	logLen int64
+	step   int
 }
 
 // acceptable implements the property's predicate on the leading 80 bytes.
@@ -91,14 +95,14 @@ func (w *world) acceptable(d []byte, now uint32, snap *server.VerifSnap) (ok boo
 		return false, "length", rep
 	}
 	rep, _ = refenc.ParseReport(d[:80])
-	if snap.Bans[rep.ID] {
+	if w.banned[rep.ID] {
 		return false, "banned_device", rep
 	}
-	au, exists := snap.Equipment[rep.ID]
+	au, exists := w.auth[rep.ID]
 	if !exists {
 		return false, "unknown_device", rep
 	}
-	if !refenc.Verify(au.PublicKey, rep.SigningBytes(), rep.Sig) {
+	if !refenc.Verify(au.Pub, rep.SigningBytes(), rep.Sig) {
 		return false, "signature", rep
 	}
 	dn := int64(rep.Slot) - int64(now)
@@ -157,7 +161,7 @@ func (w *world) judge(d []byte, class string, now uint32, before *server.VerifSn
 		ok, reason, rep = w.acceptable(eff, now, before)
 	}
 	if len(eff) == 80 {
-		if _, known := before.Equipment[rep.ID]; known || before.Bans[rep.ID] {
+		if _, known := w.auth[rep.ID]; known || w.banned[rep.ID] {
 			w.r.Nontrivial(fmt.Sprintf("%x/%d/%d", eff, now, before.Offset))
 		}
 	}
@@ -176,8 +180,12 @@ func (w *world) judge(d []byte, class string, now uint32, before *server.VerifSn
 	idx := int(rep.Slot - before.Offset)
 	prev := before.Reports[rep.ID][idx]
 	cur := after.Reports[rep.ID][idx]
-	capacity := before.Equipment[rep.ID].Capacity
+	capacity := w.auth[rep.ID].Capacity
 	w.r.Count("acceptable."+class, 1)
+	if before.Reports[rep.ID] == nil || after.Reports[rep.ID] == nil {
+		w.r.Violationf("authorized-device-has-no-report-window", replay, "device %d is authorized and not banned according to the authorizations submitted, but the server holds no report window for it", rep.ID)
+		return after
+	}
 	switch {
 	case prev.PowerOutput == 1:
 		w.r.Count("model.banned_stays", 1)
@@ -242,6 +250,28 @@ func diffOnlySlotAndRecent(d drv.Diff, dev uint32, idx int) bool {
 		}
 	}
 	return true
+}
+
+// membership compares the server's view of who is authorized / banned with the
+// authorizations the harness submitted.
+func (w *world) membership(snap *server.VerifSnap) {
+	for id, a := range w.auth {
+		e, ok := snap.Equipment[id]
+		if !ok || snap.Bans[id] || drv.RefAuth(e) != a {
+			w.r.Violationf("membership-diverged:authorized-device-missing", map[string]interface{}{"id": id}, "device %d was authorized by a GCA-signed authorization and never banned, but the server does not list it as authorized (listed=%v banned=%v)", id, ok, snap.Bans[id])
+		}
+	}
+	for id := range w.banned {
+		if _, ok := snap.Equipment[id]; ok || !snap.Bans[id] {
+			w.r.Violationf("membership-diverged:banned-device-authorized", map[string]interface{}{"id": id}, "device %d was banned by a conflicting authorization, but the server lists it as authorized=%v banned=%v", id, ok, snap.Bans[id])
+		}
+	}
+	for id := range snap.Equipment {
+		if _, ok := w.auth[id]; !ok {
+			w.r.Violationf("membership-diverged:unexpected-device", map[string]interface{}{"id": id}, "server lists device %d as authorized although no valid authorization for it is outstanding", id)
+		}
+	}
+	w.r.Count("membership.checks", 1)
 }
 
 // surfaces cross-checks the public endpoints against the snapshot.
@@ -429,6 +459,23 @@ func (w *world) datagrams(now, offset uint32, full bool) []dg {
 			add("id.alias", refenc.Report{ID: id, Slot: s3, Power: power()}.Signed(w.A.Key.Priv).Bytes())
 		}
 	}
+	// (ix) forgeries that reuse the signature of a datagram the server has ALREADY accepted
+	for _, old := range w.accepted {
+		for k := 0; k < 3; k++ {
+			c := append([]byte(nil), old...)
+			switch k {
+			case 0: // another slot inside the acceptance range, same signature
+				if s, ok := freshSlot(); ok {
+					c[4], c[5], c[6], c[7] = byte(s), byte(s>>8), byte(s>>16), byte(s>>24)
+				}
+			case 1: // another power, same signature
+				c[8+rng.Intn(4)] ^= byte(1 + rng.Intn(255))
+			case 2: // single bit flip in the signed fields
+				c = flipBit(c, 32+rng.Intn(96))
+			}
+			add("sigreuse", c)
+		}
+	}
 	// (iv) boundary slots (whether or not any slot is acceptable here)
 	for _, s := range []int64{int64(now) - 433, int64(now) - 432, int64(now) - 431, int64(now), int64(now) + 431, int64(now) + 432, int64(now) + 433,
 		int64(offset) - 1, int64(offset), int64(offset) + 1, int64(offset) + 2015, int64(offset) + 2016, int64(offset) + 4031, int64(offset) + 4032, int64(offset) + 4033} {
@@ -494,7 +541,7 @@ func round(b run.Batch, r *ev.Result, seed int64, k int) {
 	}
 	defer os.RemoveAll(dw.Dir)
 	defer dw.Close()
-	w := &world{World: dw, rng: rng, r: r}
+	w := &world{World: dw, rng: rng, r: r, auth: map[uint32]refenc.Auth{}, banned: map[uint32]bool{}}
 	capacity := uint64(100000 + rng.Intn(100000))
 	if w.A, err = dw.AddDevice(10+uint32(rng.Intn(50)), capacity); err != nil {
 		r.Inconc(err.Error())
@@ -512,6 +559,8 @@ func round(b run.Batch, r *ev.Result, seed int64, k int) {
 		r.Inconc(fmt.Sprintf("could not ban device X: status %d err %v", st, err))
 		return
 	}
+	w.auth[w.A.ID], w.auth[w.B.ID] = w.A.Auth, w.B.Auth
+	w.banned[w.X.ID] = true
 	w.U = &drv.Dev{ID: 300 + uint32(rng.Intn(50)), Key: refenc.GenKey(rng)}
 
 	var slice, of int
@@ -529,11 +578,22 @@ func round(b run.Batch, r *ev.Result, seed int64, k int) {
 			if c, err := dw.AddDevice(400+uint32(rng.Intn(50)), capacity); err == nil {
 				w.U, w.C = c, w.U // U becomes authorized; its earlier rejected reports stay rejected history
 				_ = w.C
+				w.auth[c.ID] = c.Auth
 				r.Count("membership.authorized_midrun", 1)
 			}
+			// a restart must not change who is authorized or banned
+			run.Op("restart")
+			drv.SetClock(w.S.VerifSnapshot(false).Offset) // no start-up catch-up rotation wanted here
+			if err := dw.Restart(); err != nil {
+				r.Violationf("restart-failed", nil, "server restart failed: %v", err)
+				return
+			}
+			r.Count("membership.restarts", 1)
 		}
 		if oi == 2 {
 			if st, err := dw.BanDevice(w.B.ID); err == nil && st != 200 {
+				delete(w.auth, w.B.ID)
+				w.banned[w.B.ID] = true
 				w.X, w.B = w.B, w.A // B is banned from now on
 				r.Count("membership.banned_midrun", 1)
 			}
@@ -562,6 +622,7 @@ func round(b run.Batch, r *ev.Result, seed int64, k int) {
 				r.Inconc(fmt.Sprintf("offset moved unexpectedly: %d want %d", before.Offset, off))
 				return
 			}
+			w.membership(before)
 			dgs := w.datagrams(now, off, full)
 			for i, d := range dgs {
 				viaSocket := i%7 == 3 || len(d.b) != 80
